@@ -20,8 +20,19 @@ class StepCapExceeded(BaseException):
 
 
 class Scheduler:
-    def __init__(self, rng, policy: dict, step_cap: int, forced: list | None = None) -> None:
+    def __init__(self, rng, policy: dict, step_cap: int, forced: list | None = None, stall_timeout: float = 1.0) -> None:
         self.rng = rng
+        # kio has no locks today.  Should a tree add some (a legitimate way to make codec
+        # creation thread-safe), a parked thread may hold a lock the running thread needs:
+        # the monitor in run() then notices that no step is made and lets another thread run,
+        # and a thread that wakes up without the baton parks itself at its next step.
+        self.stall_timeout = stall_timeout
+        self.stalls = 0
+        self._rr_last = None
+        self.free_run = False
+        self.undetermined = False
+        self.deadlock = False
+        self.idents: dict[int, int] = {}
         self.policy = policy
         self.step_cap = step_cap
         self.forced = list(forced) if forced is not None else None
@@ -51,7 +62,7 @@ class Scheduler:
         if self.opcodes:
             frame.f_trace_opcodes = True
         if code.co_name in ("entity_reader", "entity_writer"):
-            me = self.cur
+            me = self.idents.get(threading.get_ident(), self.cur)
             key = (code.co_name, id(frame.f_locals.get("entity_type")), frame.f_locals.get("nullable"))
             for other, stack in self.active.items():
                 if other != me and key in stack:
@@ -63,14 +74,20 @@ class Scheduler:
 
     def _local_trace_build(self, frame, event, arg):
         if event == "return":
-            st = self.active.get(self.cur)
+            st = self.active.get(self.idents.get(threading.get_ident(), self.cur))
             if st:
                 st.pop()
             return self._local_trace_build
         return self._local_trace(frame, event, arg) and self._local_trace_build
 
     def _local_trace(self, frame, event, arg):
+        if self.free_run:
+            return self._local_trace
         if event == self._step_event:
+            me = self.idents.get(threading.get_ident())
+            if me is not None and me != self.cur:
+                # woke up from a blocking call while another thread holds the baton
+                self.sems[me].acquire()
             self.steps += 1
             n = self.steps
             if n > self.step_cap:
@@ -112,6 +129,8 @@ class Scheduler:
             self.switch_sites.append(f"{os.path.basename(frame.f_code.co_filename)}:{frame.f_lineno}")
 
     def _switch_to(self, to: int, n: int) -> None:
+        if self.free_run:
+            return
         me = self.cur
         if self.forced is None:
             self.schedule.append([n, to])
@@ -125,6 +144,10 @@ class Scheduler:
         if not self.runnable:
             self.done.release()
             return
+        if self.free_run:
+            return
+        if self.cur != me:
+            return  # finished without holding the baton (it had been blocked); nothing to hand over
         if self.forced is not None:
             to = None
             if self._forced_i < len(self.forced) and len(self.forced[self._forced_i]) == 3:
@@ -146,6 +169,7 @@ class Scheduler:
 
             def body(i=i, fn=fn):
                 self.sems[i].acquire()
+                self.idents[threading.get_ident()] = i
                 sys.settrace(self._global_trace)
                 try:
                     fn()
@@ -167,6 +191,44 @@ class Scheduler:
                 self.schedule.append([-1, first, "start"])
         self.cur = first
         self.sems[first].release()
-        self.done.acquire()
+        last, idle, poll = -1, 0.0, min(0.25, self.stall_timeout / 2)
+        fruitless = 0  # consecutive hand-overs after which still no step was made
+        while not self.done.acquire(timeout=poll):
+            if self.steps != last:
+                last, idle, fruitless = self.steps, 0.0, 0
+                continue
+            idle += poll
+            if idle < self.stall_timeout:
+                continue
+            idle = 0.0
+            others = [t for t in self.runnable if t != self.cur]
+            self.stalls += 1
+            fruitless += 1
+            if self.stall_timeout > 0.02:
+                # this tree blocks: from now on do not wait that long again
+                self.stall_timeout = 0.02
+                poll = 0.01
+            if not others or fruitless > 2 * len(self.runnable) + 2:
+                # Every thread was given the baton in turn and none made a step.  Before calling
+                # that a deadlock of the code under test, rule out the scheduler itself: drop the
+                # baton discipline, let all threads run freely and wait.  Only if they still do
+                # not finish are they really blocked on each other.
+                self.free_run = True
+                for _ in range(4):
+                    for t in list(self.sems):
+                        self.sems[t].release()
+                if self.done.acquire(timeout=20.0):
+                    self.undetermined = True
+                    break
+                self.deadlock = True
+                return
+            # strict round-robin over all runnable threads, so that the lock holder gets its turn
+            order = sorted(self.runnable)
+            start = (order.index(self._rr_last) + 1) if self._rr_last in order else 0
+            to = next(t for t in (order[start:] + order[:start]) if t != self.cur)
+            self._rr_last = to
+            self.schedule.append([self.steps, to, "stall"])
+            self.cur = to
+            self.sems[to].release()
         for th in threads:
             th.join(timeout=30)
